@@ -275,6 +275,8 @@ pub struct World {
     pub pct_points: Vec<u64>,
     pub last_progress: std::time::Instant,
     pub sim_procs: HashMap<i32, usize>,
+    pub children_spawned: u64,
+    pub children_reaped: u64,
 }
 
 impl World {
@@ -313,6 +315,8 @@ impl World {
             pct_points: vec![],
             last_progress: std::time::Instant::now(),
             sim_procs: HashMap::new(),
+            children_spawned: 0,
+            children_reaped: 0,
         }
     }
 
@@ -1071,6 +1075,42 @@ pub fn open_point(_path: &std::path::Path) -> Option<io::Error> {
         }
     }
     None
+}
+
+// --- simulated external processes ---------------------------------------------------------
+
+pub fn proc_register(pid: i32, participant: usize) {
+    with(|w| {
+        w.sim_procs.insert(pid, participant);
+        w.children_spawned += 1;
+    });
+}
+
+pub fn proc_reaped(gen_id: u64) {
+    let mut g = lock();
+    if let Some(w) = g.as_mut() {
+        if w.gen_id == gen_id {
+            w.children_reaped += 1;
+        }
+    }
+}
+
+pub fn current_gen() -> u64 {
+    with(|w| w.gen_id)
+}
+
+pub fn before_process_wait(pid: i32) {
+    let Some(me) = my_pid() else { return };
+    let target = with(|w| w.sim_procs.get(&pid).copied());
+    if let Some(t) = target {
+        let _ = switch(me, St::BlockedJoin(t), OP_JOIN, t as u64, 1);
+    }
+}
+
+pub fn before_process_poll(_pid: i32) {
+    if let Some(me) = my_pid() {
+        let _ = switch(me, St::Runnable, OP_POLL, 0, 1);
+    }
 }
 
 pub fn probe_event(tag: String, status: u8, depth: usize, jobs: Vec<usize>, extra: Vec<String>) {
